@@ -41,6 +41,9 @@ def explicit_wellformed(doc):
             return False
         if not (isinstance(doc["doi"], list) and all(isinstance(s, str) for s in doc["doi"]) and isinstance(doc["metadata"], dict)):
             return False
+        if not all(isinstance(doc[k], list) and all(isinstance(x, dict) for x in doc[k])
+                   for k in ("demes", "migrations", "pulses")):
+            return False
         for d in doc["demes"]:
             if set(d) != {"name", "description", "start_time", "ancestors", "proportions", "epochs"}:
                 return False
@@ -50,7 +53,7 @@ def explicit_wellformed(doc):
                 return False
             if not (isinstance(d["proportions"], list) and all(num(a) for a in d["proportions"])):
                 return False
-            if not isinstance(d["epochs"], list):
+            if not (isinstance(d["epochs"], list) and all(isinstance(x, dict) for x in d["epochs"])):
                 return False
             for e in d["epochs"]:
                 if set(e) != {"end_time", "start_size", "end_size", "size_function", "selfing_rate", "cloning_rate"}:
@@ -121,7 +124,7 @@ def run(chk):
                     chk.disagreements += 1
                     chk.unproven("reject:correspondence-value", "implementation and proved model resolve differently",
                                  dict(rep, impl=gen.graph_payload(r[1]), model=mr))
-                vb = validity.check_graph(None, r[1])
+                vb = validity.check_graph(drv, r[1])
                 if vb:
                     chk.violation("reject:accepts-invalid:" + vb.split(" ")[0],
                                   "a rule-breaking document is accepted; the returned graph is invalid: " + vb, rep)
